@@ -169,10 +169,20 @@ def has_trigger(p) -> bool:
     return p['pattern'] in ('response', 'prevention', 'requirement')
 
 
+SLASHY = [False]  # when set, alternatives of one event get ROS-style look-alike names: b0, /b0, ~b0, ns/b0, b1 ... (all different channels)
+
+
+def topic_name(prefix: str, i: int) -> str:
+    if not SLASHY[0]:
+        return f'{prefix}{i}'
+    forms = ['{p}{k}', '/{p}{k}', '~{p}{k}', 'ns/{p}{k}']
+    return forms[i % 4].format(p=prefix, k=i // 4)
+
+
 def mk_event(prefix: str, width: int, aliases: Optional[List[Optional[str]]] = None, preds: Optional[List[Any]] = None):
     evs = []
     for i in range(width):
-        evs.append(('ev', f'{prefix}{i}', aliases[i] if aliases else None, preds[i] if preds else None))
+        evs.append(('ev', topic_name(prefix, i), aliases[i] if aliases else None, preds[i] if preds else None))
     return evs[0] if width == 1 else ('or',) + tuple(evs)
 
 
